@@ -55,12 +55,21 @@ def app_cases(tier, rng):
         cfg = {(c, e): sp for e in holders}
         steps = [sop(spawn(e, [c])) for e in holders]
         leave = {rng.randrange(1, L): rng.choice([remove(e, c), despawn(e)]) for e in holders[1:] if rng.random() < .7}
+        # everybody leaves and somebody comes back: a new life of the context starts from zero
+        comeback = len(holders) == 3 and rng.random() < .4
+        if comeback:
+            k0 = rng.randrange(2, max(3, L - 3))
+            leave = {k0: remove(0, c), k0 + 1: remove(1, c), k0 + 2: remove(2, c)}
+            back = {k0 + 2: insert(rng.choice([0, 1, 2]), c)}
+        else:
+            back = {}
         speed, paused = F(1), False
         for i in range(L):
             if rng.random() < 0.25: speed = rng.choice(SPEEDS)
             if rng.random() < 0.15: paused = not paused
             real = rand_dt(rng, maxe=7) if rng.random() < .85 else rng.choice([F(1, 2), F(3, 8)])     # beyond the 250 ms clamp
             if i in leave: steps.append(sop(leave[i]))
+            if i in back: steps.append(sop(back[i]))
             steps.append(frame(raw(), real, speed, paused))
             if i == L // 2 and rng.random() < 0.3:
                 steps.append(sop(REBUILD))
@@ -80,7 +89,7 @@ STAGES.append(dict(name='virtual', mode='app', coq='Check.C10a', cases=app_cases
                    rule='real App with TimeUpdateStrategy::ManualDuration: 1-3 actions driven by sticky scripted states (some with a scripted events-only or plain blocker) over 6-30 frames, real deltas m*2^-e s and some beyond '
                         'the 250 ms clamp, relative speed changing among {0,1/4,1/2,1,2,4}, pauses, a rebuild in the middle; shared contexts with three holders some of which leave in mid-run; polled durations and event payloads are recomputed '
                         'from the polled states and (clamped real delta x speed, 0 while paused)'))
-CLAUSES_A = {30: 'an operation between two frames (a holder leaving) changed the polled durations / state of an instance it neither built nor removed', 1: 'polled elapsed differs from the sum of virtual deltas since the action left None', 2: 'polled fired differs from the sum of virtual deltas over the latest run of frames whose previous state was Fired',
+CLAUSES_A = {31: 'an entity that got the context when nobody else held it sees non-zero durations or a state other than None (an earlier instance survived)', 30: 'an operation between two frames (a holder leaving) changed the polled durations / state of an instance it neither built nor removed', 1: 'polled elapsed differs from the sum of virtual deltas since the action left None', 2: 'polled fired differs from the sum of virtual deltas over the latest run of frames whose previous state was Fired',
              3: 'not 0 <= fired <= elapsed', 4: 'durations carried by an event differ from the polled ones', 8: 'panic', 9: 'malformed trace', 10: 'panic'}
 CLAUSES = {1: 'polled state is not the state passed to update', 2: 'elapsed differs from the sum of deltas since the action left None',
            3: 'fired differs from the sum of deltas over the latest run of frames whose previous state was Fired',
